@@ -1,22 +1,41 @@
 (* C08 — flat-integer wire format: input decoding, observable printing / parsing, and the four
    entry points of the generic OCaml driver (extracted by Extract.v).
 
-   INPUT   cfg(21) nops op*
+   INPUT   cfg(21) [-1 wC wM dom accProd sAggType sAggDur] nops op*
      cfg : thrC thrM pthrC pthrM  aggOn aggThrC aggThrM aggType aggDur  fexp  expFlag expVal  enab
            incSys allowCustom  ssFlag ssVal siFlag siVal  facC facM
            (map entries: -1 = key absent; fexp/enab: 0 nil, 1 false, 2 true)
+           optional extension, announced by a negative integer where the op count would be: what
+           only Score reads (ResourceWeights, DominantResourceWeight, ScoreAccordingProdUsage,
+           Aggregated.ScoreAggregationType / ScoreAggregatedDuration)
      pod(19) : uid key node prio term resv ds reqC reqM limC limM cfC cfM csS csI schS schT iniS iniT
-           (times: -999999999 = zero time; condition state 0 absent, 1 not True, 2 True)
+           (times: -999999999 = zero time; condition state 0 absent, 1 not True, 2 True;
+            key < 100: namespace "default", else namespace ns<key/100>, name p<key mod 100>;
+            one container; resource names follow the priority band)
+     pod, extended form : pod(19) prioNil label qos kqos phase owner fam
+                          nctr {reqC reqM limC limM}  ninit {always reqC reqM limC limM}  ohFlag ohC ohM
+           (label 1..4 = koord-prod/mid/batch/free, other = unknown name; qos 1..5 = LSE LSR LS BE
+            SYSTEM; kqos = status.qosClass 1..3 = Guaranteed Burstable BestEffort; phase 1 Succeeded
+            2 Failed 3 Pending 4 Unknown; owner 1 DaemonSet, 2 ReplicaSet+DaemonSet, 3 ReplicaSet,
+            4 kind "daemonset"; fam 1 cpu/memory 2 mid-* 3 batch-*; 0 = as the basic fields say)
      metric : utFlag ut ivFlag iv infoFlag usageC usageM sysC sysM
               nagg {dur ntypes {type flag vC vM}}  npods {key flag vC vM prod}
+              (pod flag: 0 empty usage list, 1 usage, 2 nil entry, 3 only unknown resource names)
      node(17) : name allocC allocM rawFlag rawC rawM customFlag cuC cuM cpC cpM
                 caggFlag caThrC caThrM caType caDurFlag caDur
-     op : 1 now node pod | 2 now node pod | 3 now pod | 4 now oldnode pod | 5 now pod wrap
-        | 6 now node upd metric | 7 now node wrap | 8 now pre node pod
+     op : 1 now node pod | 2 now node pod | 3 now pod | 4 now oldnode pod (oldnode < 0: no old object)
+        | 5 now pod wrap (2, 3: the tombstone holds / the object is not a pod)
+        | 6 now node upd metric (upd 2, 3: not a NodeMetric / a nil one) | 7 now node wrap
+        | 8 now pre node pod   Filter (pre: 0 new cycle, 1 new cycle + PreFilter, 2 same CycleState
+                               as the previous Filter / Score: the next node of the cycle)
+        | 9 now kind           a pod handler called with something that is not a pod
+        | 10 now pre node pod  Score
+        | 11..15, 18, 20       = 1..5, 8, 10 with the pod in the extended form
    OBSERVABLE  per op:  result, then for node 1..3:
         0                                              (no entry)
       | 1 hasMetric k uid*k [ old(8) fresh(8) {found c m}*8 ]   (bracket iff hasMetric = 1)
-     sums are prodUsage nodeDelta prodDelta nodeEstimated, two integers each *)
+     sums are prodUsage nodeDelta prodDelta nodeEstimated, two integers each;
+     result = Filter status (0 pass/skip, 1 usage, 2 aggregated usage, 3 expired) or the Score *)
 From Coq Require Import List ZArith Bool.
 From Verif Require Import Lib.Wire C08.Model C08.Spec.
 Import ListNotations.
@@ -35,19 +54,69 @@ Definition dec_cfg (l : list Z) : config * list Z :=
     (mkCfg [oz thrC; oz thrM] [oz pthrC; oz pthrM]
        (if zb aggOn then Some (mkAgg [oz aggThrC; oz aggThrM] aggType aggDur) else None)
        (ob3 fexp) (fz expF expV) (ob3 enab) (zb incSys) (zb allowC)
-       (fz ssF ssV) (fz siF siV) [oz facC; oz facM], r)
-  | _ => (mkCfg [] [] None None None None false false None None [], [])
+       (fz ssF ssV) (fz siF siV) [oz facC; oz facM] no_score, r)
+  | _ => (mkCfg [] [] None None None None false false None None [] no_score, [])
+  end.
+(* an optional header extension, announced by a negative integer where the op count would be:
+     -1 wC wM dom accProd sAggType sAggDur     (what Score reads) *)
+Definition dec_cfg_ext (l : list Z) : config * list Z :=
+  let '(cfg, r) := dec_cfg l in
+  match r with
+  | mark :: wC :: wM :: dom :: accProd :: sT :: sD :: r' =>
+    if mark <? 0 then
+      (mkCfg (c_thr cfg) (c_prod_thr cfg) (c_agg cfg) (c_filter_expired cfg) (c_exp_seconds cfg)
+         (c_enable_expired cfg) (c_include_sys cfg) (c_allow_custom cfg) (c_sec_sched cfg)
+         (c_sec_init cfg) (c_factors cfg) (mkSC [oz wC; oz wM] dom (zb accProd) sT sD), r')
+    else (cfg, r)
+  | _ => (cfg, r)
   end.
 
+Definition nn (z : Z) : Z := Z.max 0 z.      (* the harness omits entries that are not positive *)
 Definition dflt_pod : pod :=
-  mkPod 0 0 0 0 false false false [] [] [] (-1) (-1) 0 0 0 0.
+  mkPod 0 0 0 None 0 0 0 0 false 0 1 [] [] None [] (-1) (-1) 0 0 0 0.
+(* the resource names a pod of the basic form declares under follow its priority band *)
+Definition fam_of_band (prio : Z) : Z :=
+  match cls_of_prio prio with CMid => 2 | CBatch => 3 | _ => 1 end.
 Definition dec_pod (l : list Z) : pod * list Z :=
   match l with
   | uid :: key :: node :: prio :: term :: resv :: ds :: reqC :: reqM :: limC :: limM ::
     cfC :: cfM :: csS :: csI :: schS :: schT :: iniS :: iniT :: r =>
-    (mkPod uid key node prio (zb term) (zb resv) (zb ds) [reqC; reqM] [limC; limM]
+    (mkPod uid key node (Some prio) 0 0 0 (bz (zb term)) (zb resv) (bz (zb ds)) (fam_of_band prio)
+       [mkCtr [nn reqC; nn reqM] [nn limC; nn limM]] [] None
        [oz cfC; oz cfM] csS csI schS (tz schT) iniS (tz iniT), r)
   | _ => (dflt_pod, [])
+  end.
+(* the extended form: the 19 basic fields, then
+     prioNil label qos kqos phase owner fam  nctr {reqC reqM limC limM}
+     ninit {always reqC reqM limC limM}  ohFlag ohC ohM
+   phase / owner / fam 0 = as the basic fields say *)
+Definition dec_ctr (l : list Z) : ctr * list Z :=
+  match l with
+  | a :: b :: c :: d :: r => (mkCtr [nn a; nn b] [nn c; nn d], r)
+  | _ => (mkCtr [0; 0] [0; 0], [])
+  end.
+Definition dec_ictr (l : list Z) : (bool * ctr) * list Z :=
+  match l with
+  | al :: r => let '(c, r') := dec_ctr r in ((zb al, c), r')
+  | [] => ((false, mkCtr [0; 0] [0; 0]), [])
+  end.
+Definition dec_pod_ext (l : list Z) : pod * list Z :=
+  let '(p, r) := dec_pod l in
+  match r with
+  | prioNil :: label :: qos :: kqos :: phase :: owner :: fam :: r1 =>
+    let '(ctrs, r2) := decode_seq dec_ctr r1 in
+    let '(inits, r3) := decode_seq dec_ictr r2 in
+    match r3 with
+    | ohF :: ohC :: ohM :: r4 =>
+      (mkPod (p_uid p) (p_key p) (p_node p) (if zb prioNil then None else p_prio p)
+         label qos kqos (if phase =? 0 then p_phase p else phase) (p_resv p)
+         (if owner =? 0 then p_owner p else owner)
+         (if (1 <=? fam) && (fam <=? 3) then fam else p_fam p)
+         (p_ctrs p ++ ctrs) inits (if zb ohF then Some [nn ohC; nn ohM] else None)
+         (p_cf p) (p_cs_sched p) (p_cs_init p) (p_sch_s p) (p_sch_t p) (p_ini_s p) (p_ini_t p), r4)
+    | _ => (p, [])
+    end
+  | _ => (p, [])
   end.
 
 Definition dec_tu (l : list Z) : (Z * option vec) * list Z :=
@@ -69,7 +138,8 @@ Definition dec_agg (l : list Z) : (Z * list (Z * option vec)) * list Z :=
 Definition dec_pm (l : list Z) : pmetric * list Z :=
   match l with
   | key :: f :: vC :: vM :: prod :: r =>
-    (mkPM key (if zb f then Some [vC; vM] else None) (zb prod), r)
+    (* f: 0 empty usage list, 1 usage, 2 a nil entry, 3 a usage list naming only other resources *)
+    (mkPM key (if f =? 1 then Some [vC; vM] else if f =? 3 then Some [0; 0] else None) (zb prod), r)
   | _ => (mkPM 0 None false, [])
   end.
 Definition dec_metric (l : list Z) : metric * list Z :=
@@ -94,34 +164,52 @@ Definition dec_node (l : list Z) : nodeobj * list Z :=
   | _ => (mkNode 0 [] None None, [])
   end.
 
+(* op codes 11..15, 18 and 20 are 1..5, 8 and 10 with the pod in the extended form *)
 Definition dec_op (l : list Z) : op * list Z :=
   match l with
-  | code :: now :: r =>
+  | code0 :: now :: r =>
+    let ext := 10 <? code0 in
+    let code := if ext then code0 - 10 else code0 in
+    let dpod := if ext then dec_pod_ext else dec_pod in
     if code =? 1 then
-      match r with node :: r1 => let '(p, r2) := dec_pod r1 in (OReserve now node p, r2)
-                 | [] => (OMetricDel 0 0, []) end
+      match r with node :: r1 => let '(p, r2) := dpod r1 in (OReserve now node p, r2)
+                 | [] => (ONop 0, []) end
     else if code =? 2 then
-      match r with node :: r1 => let '(p, r2) := dec_pod r1 in (OUnreserve now node p, r2)
-                 | [] => (OMetricDel 0 0, []) end
-    else if code =? 3 then let '(p, r2) := dec_pod r in (OAdd now p, r2)
+      match r with node :: r1 => let '(p, r2) := dpod r1 in (OUnreserve now node p, r2)
+                 | [] => (ONop 0, []) end
+    else if code =? 3 then let '(p, r2) := dpod r in (OAdd now p, r2)
     else if code =? 4 then
-      match r with node :: r1 => let '(p, r2) := dec_pod r1 in (OUpdate now node p, r2)
-                 | [] => (OMetricDel 0 0, []) end
-    else if code =? 5 then let '(p, r2) := dec_pod r in (ODelete now p, tl r2)
+      (* old node < 0: the old object is nil / not a pod *)
+      match r with node :: r1 => let '(p, r2) := dpod r1 in (OUpdate now (nn node) p, r2)
+                 | [] => (ONop 0, []) end
+    else if code =? 5 then
+      (* wrap: 0 the pod, 1 tombstone holding the pod, >= 2 tombstone holding / being something else *)
+      let '(p, r2) := dpod r in
+      ((if hdZ r2 <? 2 then ODelete now p else ONop now), tl r2)
     else if code =? 6 then
-      match r with node :: _ :: r1 => let '(m, r2) := dec_metric r1 in (OMetric now node m, r2)
-                 | _ => (OMetricDel 0 0, []) end
+      (* upd: 0 add, 1 update, >= 2 the object is not a NodeMetric / a nil one *)
+      match r with node :: upd :: r1 => let '(m, r2) := dec_metric r1 in
+                                        ((if upd <? 2 then OMetric now node m else ONop now), r2)
+                 | _ => (ONop 0, []) end
     else if code =? 7 then
-      match r with node :: _ :: r1 => (OMetricDel now node, r1) | _ => (OMetricDel 0 0, []) end
-    else
+      match r with node :: wrap :: r1 => ((if wrap <? 2 then OMetricDel now node else ONop now), r1)
+                 | _ => (ONop 0, []) end
+    else if code =? 8 then
       match r with _ :: r1 => let '(nd, r2) := dec_node r1 in
-                              let '(p, r3) := dec_pod r2 in (OFilter now nd p, r3)
-                 | [] => (OMetricDel 0 0, []) end
-  | _ => (OMetricDel 0 0, [])
+                              let '(p, r3) := dpod r2 in (OFilter now nd p, r3)
+                 | [] => (ONop 0, []) end
+    else if code =? 10 then
+      match r with _ :: r1 => let '(nd, r2) := dec_node r1 in
+                              let '(p, r3) := dpod r2 in (OScore now nd p, r3)
+                 | [] => (ONop 0, []) end
+    else
+      (* 9 now kind: a pod event handler called with an object that is not a pod *)
+      (ONop now, tl r)
+  | _ => (ONop 0, [])
   end.
 
 Definition decode (inp : list Z) : config * list op :=
-  let '(cfg, r) := dec_cfg inp in
+  let '(cfg, r) := dec_cfg_ext inp in
   (cfg, fst (decode_seq dec_op r)).
 
 (* ---------------------------------------------------------------- observable: print *)
@@ -196,7 +284,8 @@ Definition prop_case (inp obs : list Z) : Z :=
    pod or takes a Filter decision *)
 Definition op_mutates (o : op) : bool :=
   match o with
-  | OUnreserve _ _ _ | OUpdate _ _ _ | ODelete _ _ | OFilter _ _ _ | OMetricDel _ _ => true
+  | OUnreserve _ _ _ | OUpdate _ _ _ | ODelete _ _ | OFilter _ _ _ | OMetricDel _ _
+  | OScore _ _ _ => true
   | _ => false
   end.
 Definition view_live (v : list (option nobs)) : bool :=
